@@ -8,6 +8,7 @@ import (
 	"os"
 	"os/exec"
 	"path/filepath"
+	"regexp"
 	"runtime"
 	"sort"
 	"strings"
@@ -57,7 +58,7 @@ func matchKnown(ks []KnownFinding, prop string, v *Violation) *KnownFinding {
 		if k.Harness != "" && k.Harness != v.Harness {
 			continue
 		}
-		if k.Label != "" && !strings.Contains(v.Label, k.Label) {
+		if k.Label != "" && !strings.Contains(normLabel(v.Label), normLabel(k.Label)) {
 			continue
 		}
 		if k.Site != "" && !strings.Contains(v.Site, k.Site) {
@@ -144,6 +145,7 @@ func cmdRun(args []string) int {
 	noEvidence := fs.Bool("no-evidence", false, "do not write the evidence file")
 	xcheck := fs.String("xcheck", "auto", "mirror solvers for assertion queries: auto|none|z3-new,cvc5")
 	verbose := fs.Bool("v", false, "verbose")
+	relFilter := fs.String("pkg", "", "substring filter on package dirs for generated harnesses")
 	fs.Parse(args)
 	if os.Getenv("VERIF_TIER") != "" && *tier == "" {
 		*tier = os.Getenv("VERIF_TIER")
@@ -153,6 +155,32 @@ func cmdRun(args []string) int {
 	t0 := time.Now()
 
 	dirs, err := harnessDirsFor(*prop)
+	workDir := filepath.Join(verifRoot, ".work", *prop+"-"+*tier)
+	os.RemoveAll(workDir)
+	os.MkdirAll(workDir, 0o755)
+	extra := map[string]string{}
+	var genSkipped []string
+	if *prop == "C08" || *prop == "C09" {
+		gnames, gfiles, skipped, gerr := generateCodecHarnesses(filepath.Join(workDir, "gencodec"), *prop)
+		if gerr != nil {
+			fmt.Printf("ENGINE-ERROR codec harness generation: %v\n", gerr)
+			return 2
+		}
+		genSkipped = skipped
+		for rel, ns := range gnames {
+			if *relFilter != "" && !strings.Contains(rel, *relFilter) {
+				continue
+			}
+			dirs[rel] = append(dirs[rel], ns...)
+			extra[rel] = gfiles[rel]
+		}
+		// dirs that have hand-written harnesses also need the generated file if it exists (same package)
+		for rel := range dirs {
+			if f, ok := gfiles[rel]; ok {
+				extra[rel] = f
+			}
+		}
+	}
 	if err != nil || len(dirs) == 0 {
 		fmt.Printf("ENGINE-ERROR no harnesses for %s: %v\n", *prop, err)
 		return 2
@@ -162,10 +190,7 @@ func cmdRun(args []string) int {
 		rels = append(rels, r)
 	}
 	sort.Strings(rels)
-	workDir := filepath.Join(verifRoot, ".work", *prop+"-"+*tier)
-	os.RemoveAll(workDir)
-	os.MkdirAll(workDir, 0o755)
-	ov, err := prepareOverlay(rels, workDir)
+	ov, err := prepareOverlay(rels, workDir, extra)
 	if err != nil {
 		fmt.Printf("ENGINE-ERROR overlay: %v\n", err)
 		return 2
@@ -222,8 +247,11 @@ func cmdRun(args []string) int {
 			if cfg.Tier != "both" && cfg.Tier != *tier {
 				continue
 			}
-			cfgs[hn] = cfg
-			var budget time.Duration
+			cfgs[cfg.Pkg+"."+hn] = cfg
+			budget := 90 * time.Second
+			if *tier == "thorough" {
+				budget = 20 * time.Minute
+			}
 			if b, ok := cfg.Opts["budget"]; ok {
 				budget, _ = time.ParseDuration(b)
 			}
@@ -288,7 +316,7 @@ func cmdRun(args []string) int {
 	seen := map[string]bool{}
 	var viol []*Violation
 	for _, v := range allViol {
-		k := v.Harness + "|" + v.Label + "|" + v.Site
+		k := v.Pkg + "|" + v.Harness + "|" + normLabel(v.Label) + "|" + v.Site
 		if seen[k] {
 			continue
 		}
@@ -320,10 +348,9 @@ func cmdRun(args []string) int {
 			pkg  string
 		}
 		var items []item
-		pkgOf := func(h string) string { return cfgs[h].Pkg }
 		for i, v := range viol {
 			base := fmt.Sprintf("v%03d-%s", i, v.Harness)
-			in := replayIn{Harness: v.Harness, Pkg: pkgOf(v.Harness), Vars: v.Vars, Params: cfgs[v.Harness].Opts, Expect: v.Kind + ":" + v.Label,
+			in := replayIn{Harness: v.Harness, Pkg: v.Pkg, Vars: v.Vars, Params: cfgs[v.Pkg+"."+v.Harness].Opts, Expect: v.Kind + ":" + v.Label,
 				Label: v.Label, Kind: v.Kind, Site: v.Site, Stack: v.Stack, Property: *prop, TimeoutMs: 8000}
 			raw, _ := json.MarshalIndent(in, "", " ")
 			os.WriteFile(filepath.Join(inDir, base+".in.json"), raw, 0o644)
@@ -332,7 +359,7 @@ func cmdRun(args []string) int {
 		}
 		for i, w := range allWit {
 			base := fmt.Sprintf("w%03d-%s", i, w.Harness)
-			in := replayIn{Harness: w.Harness, Pkg: pkgOf(w.Harness), Vars: w.Vars, Params: cfgs[w.Harness].Opts, Expect: "pass", Label: w.Label, Property: *prop}
+			in := replayIn{Harness: w.Harness, Pkg: w.Pkg, Vars: w.Vars, Params: cfgs[w.Pkg+"."+w.Harness].Opts, Expect: "pass", Label: w.Label, Property: *prop}
 			raw, _ := json.MarshalIndent(in, "", " ")
 			os.WriteFile(filepath.Join(inDir, base+".in.json"), raw, 0o644)
 			items = append(items, item{w: w, base: base, pkg: in.Pkg})
@@ -424,7 +451,7 @@ func cmdRun(args []string) int {
 	}
 
 	if !*noEvidence && *only == "" {
-		writeEvidence(*prop, *tier, seed, reports, funcs, samples, validated, nViol, nKnown, knownLines, mismatches, time.Since(t0).Seconds(), loadS, mirrors, cfgs)
+		writeEvidence(*prop, *tier, seed, reports, funcs, samples, validated, nViol, nKnown, knownLines, mismatches, time.Since(t0).Seconds(), loadS, mirrors, cfgs, genSkipped)
 	}
 	tot := 0
 	held := 0
@@ -437,6 +464,11 @@ func cmdRun(args []string) int {
 	fmt.Printf("[%s] %s: %d harnesses, %d held, %d new violations, %d known findings, %d mismatches, %.1fs\n", *prop, *tier, tot, held, nViol, nKnown, mismatches, time.Since(t0).Seconds())
 	return exit
 }
+
+var digitsRe = regexp.MustCompile(`[0-9]+`)
+
+// normLabel drops concrete numbers so that the same panic at different indices is one finding.
+func normLabel(s string) string { return digitsRe.ReplaceAllString(s, "N") }
 
 func shortSite(s string) string {
 	return strings.ReplaceAll(s, modulePath+"/", "")
@@ -509,7 +541,13 @@ func cmdReplay(args []string) int {
 	rel := strings.TrimPrefix(in.Pkg, modulePath+"/")
 	workDir, _ := os.MkdirTemp(filepath.Join(verifRoot, ".work"), "replay-")
 	defer os.RemoveAll(workDir)
-	if _, err := prepareOverlay([]string{rel}, workDir); err != nil {
+	extra := map[string]string{}
+	if _, gfiles, _, gerr := generateCodecHarnesses(filepath.Join(workDir, "gencodec"), ""); gerr == nil {
+		if f, ok := gfiles[rel]; ok {
+			extra[rel] = f
+		}
+	}
+	if _, err := prepareOverlay([]string{rel}, workDir, extra); err != nil {
 		fmt.Println(err)
 		return 2
 	}
@@ -535,7 +573,7 @@ func cmdReplay(args []string) int {
 }
 
 func writeEvidence(prop, tier string, seed int, reports []*harnessReport, funcs map[string]bool, samples []interface{}, validated, nViol, nKnown int,
-	knownLines []string, mismatches int, wall, loadS float64, mirrors []string, cfgs map[string]*HarnessCfg) {
+	knownLines []string, mismatches int, wall, loadS float64, mirrors []string, cfgs map[string]*HarnessCfg, genSkipped []string) {
 	states, transitions, obligations, discharged, inconcl, queries := 0, 0, 0, 0, 0, 0
 	solverS := 0.0
 	stubs := map[string]bool{}
@@ -623,6 +661,7 @@ func writeEvidence(prop, tier string, seed int, reports []*harnessReport, funcs 
 			"repo_head":                     strings.TrimSpace(string(head)),
 			"repo_dirty_files":              strings.Fields(strings.TrimSpace(string(dirty))),
 			"exhaustive":                    len(incomplete) == 0,
+			"generated_harness_gaps":        genSkipped,
 		},
 	}
 	os.MkdirAll(filepath.Join(verifRoot, "evidence"), 0o755)
